@@ -302,6 +302,9 @@ func checkFile(m *mon.M, vc *detviol.Collector, r *vrand.Rand, f *refflv.File, i
 		s2 := transport.PickSegReader(R, r, headerCuts(r, f), oneByteLimit)
 		o1 := demux(m, vc, i, s1, f, "libfile", rep)
 		demux(m, vc, i, s2, f, "reffile", rep)
+		if len(R) <= 1<<20 {
+			demuxFrom(m, vc, i, bytes.NewReader(R), nil, f, "reffile-seekable", rep)
+		}
 		m.Classf("flags%s/n%s/seg:%s+%s/%s", o1.flags, bucket(len(f.Tags)), s1.Mode, s2.Mode, o1.classes())
 	})
 }
@@ -364,13 +367,21 @@ func (o *observed) classes() string {
 // demux reads the stream with the library demuxer and compares with want.  All counters
 // are taken from what the demuxer returned, not from the generator.
 func demux(m *mon.M, vc *detviol.Collector, i int, s *transport.SegReader, want *refflv.File, src string, rep map[string]interface{}) *observed {
+	return demuxFrom(m, vc, i, s, s, want, src, rep)
+}
+
+// demuxFrom reads rd; s (may be nil) is the segmenting reader behind it, for the statistics.
+func demuxFrom(m *mon.M, vc *detviol.Collector, i int, rd io.Reader, s *transport.SegReader, want *refflv.File, src string, rep map[string]interface{}) *observed {
 	o := &observed{flags: "?", sizes: map[string]bool{}, tss: map[string]bool{}}
-	rp := map[string]interface{}{"source": src, "segmentation": s.Describe()}
+	seg := "a bytes.Reader (Seek/ReadAt/WriteTo/ReadByte available)"
+	if s != nil {
+		seg = s.Describe()
+	}
+	rp := map[string]interface{}{"source": src, "segmentation": seg}
 	for k, v := range rep {
 		rp[k] = v
 	}
-	seg := s.Describe()
-	d, err := flv.NewDemuxer(s)
+	d, err := flv.NewDemuxer(rd)
 	if err != nil {
 		vc.Violationf(i, "c09:demux-error:new:"+src, rp, "NewDemuxer: %v", err)
 		return o
@@ -457,6 +468,10 @@ func demux(m *mon.M, vc *detviol.Collector, i int, s *transport.SegReader, want 
 		m.Count("end_reported_as_io_EOF", 1)
 	} else {
 		m.Count("end_reported_as_other_error", 1)
+	}
+	if s == nil {
+		m.Count("files_demuxed_from_a_seekable_reader", 1)
+		return o
 	}
 	if s.Offset() != refflvLen(want) {
 		m.Count("demuxer_did_not_consume_whole_file", 1) // the last PreviousTagSize may legally be left unread: observation only
